@@ -6,6 +6,7 @@ import (
 	"math"
 	"math/rand"
 	"net"
+	"sync/atomic"
 	"time"
 
 	oprom "github.com/Jigsaw-Code/outline-ss-server/prometheus"
@@ -97,6 +98,16 @@ func c16Round(c *vk.Ctx, r *rand.Rand, round int) bool {
 		}
 	}
 	w.rig.Nat.mu.Unlock()
+	if injectEvery > 0 {
+		// and every 5th write of a reply towards a client fails as well
+		var nrw atomic.Int64
+		w.rig.Sock.SetFailWrite(func(dst net.Addr, l int) error {
+			if nrw.Add(1)%5 == 0 {
+				return errors.New("injected reply write error")
+			}
+			return nil
+		})
+	}
 	fc, _ := newUDPClient(net.IPv4(198, 51, 100, 252).To4(), 0, keys[0])
 	defer fc.Close()
 	fence := func() bool {
